@@ -312,8 +312,8 @@ LEVEL_TEXT = ("Theorems for every lint-clean closed circuit, every order choice 
               "original (several x constants: under the valuations that give them one value - the reader shares one unknown). With blackbox "
               "instances (connected and unconnected pins, several instances per type, escaped instance names; extra hypothesis wf_bb: pin-typed "
               "nodes are registered pins, other names dot-free, nothing reads a bb_input, pins of different instances differ, instance / type "
-              "names no digit-led / primitive names): (C03_roundtrip_identical_bb) without constants the primitive-style text reads back to the "
-              "identical circuit and registry; (C03_roundtrip_equiv_bb, pins not marked as outputs) in both styles with any constants the read "
+              "names no digit-led / primitive names, no pin node marked as output): (C03_roundtrip_identical_bb) without constants the primitive-style text reads back to the "
+              "identical circuit and registry; (C03_roundtrip_equiv_bb = roundtrip_equiv_bb_full) in both styles with any constants the read "
               "succeeds, gives the same name, inputs, outputs and registry, every input pin on the same net (or none), every output pin driving "
               "the same net, and an equivalent circuit at every output and every blackbox input pin (C03_roundtrip_equiv_bb_nodes: at every node). roundtrip_identical_full / "
               "roundtrip_equiv_full (wf_rt alone) are kept as statements and refuted as stated (C03_full_statements_need_wf_bb: a blackbox "
@@ -322,5 +322,6 @@ LEVEL_TEXT = ("Theorems for every lint-clean closed circuit, every order choice 
               "through to_file/from_file.")
 LEVEL_NOTE = ("Trusted: Coq kernel + vm_compute, std++, Lark, the harness tokenizer of the writer's text (the text layer - blanks after "
               "escaped names, line layout - is validated by it, not modelled). All 1'bx constants denote one shared unknown. "
-              "Open: roundtrip_equiv_bb_full for circuits with pin nodes marked as outputs (stated, validated per case).")
+              "A pin node marked as output (excluded by wf_bb) makes the real writer emit text the real reader cannot lex: reported, "
+              "fixes/proposed/c03-pin-output.*; the generator produces none.")
 TECHNIQUE = "Coq models of writer and reader + proved expression lemmas + vm_compute correspondence and round-trip oracle"
